@@ -49,8 +49,8 @@ def gen_value(rng, name):
                            'extends Foo', 'extends', 'extends a b', 'ADDITIVE', 'symbolic x', 'alphabetic'])
     if name == 'range':
         def part():
-            return rng.choice(['auto', 'infinite infinite', '1 3', '3 1', '0 0', '-5 infinite', 'infinite 9',
-                               '1 infinite', 'infinite', '2 2.5', 'Infinite 3', '1 2 3', ''])
+            return rng.choice(['auto', 'AUTO', 'infinite infinite', '1 3', '3 1', '0 0', '-5 infinite', 'infinite 9',
+                               '1 infinite', 'infinite', '2 2.5', 'Infinite 3', '1 2 3', '', 'auto auto', '"auto"'])
         return ', '.join(part() for _ in range(rng.choice([1, 1, 2, 3])))
     if name in ('pad',):
         return rng.choice(['3 "0"', '"0" 3', '0 x', '-1 x', '2.0 x', '3 4', '3', 'x y', '3 url(http://x.invalid/p)',
